@@ -37,7 +37,7 @@ Definition ml_fixed (l : memloc) : bool :=
 Definition reads_clear (strict : bool) (F : list fact) (asz : Z -> Z) (i : inst) (x : pitem) : bool :=
   let sh := rshape (i_op i) in
   negb (in_sps (fst x) (sh_rall sh)) &&
-  forallb (fun r => negb (sp_eqb (sr_sp r) (fst x)) || locs_disjoint strict asz (sym_locU F asz (i_args i) r) (snd x)) (sh_r sh).
+  forallb (fun r => negb (sp_eqb (sr_sp r) (fst x)) || locs_disjoint strict asz (sym_loc F asz (i_args i) r) (snd x)) (sh_r sh).
 
 Definition covered (F : list fact) (asz : Z -> Z) (i : inst) (x : pitem) : bool :=
   let sh := wshape (i_op i) in
